@@ -20,13 +20,15 @@ def gen_history(rng, n_ops, damage):
     snap = rng.choice([0, 0, 2, 3, 5])
     rot = rng.choice([1, 100, 130, 300, 100000])
     ids = list(range(1, rng.choice([3, 5, 8]) + 1))
-    ops = ["cfg dim=%d metric=l2 cap=300 snap=%d rot=%d fsync=always crash=0 torn=0 wall=%d" % (dim, snap, rot, 1700000000 + rng.randrange(10 ** 6))]
+    now = 1700000000 + rng.randrange(10 ** 6)           # the virtual wall clock, advanced only by `tick`
+    ops = ["cfg dim=%d metric=l2 cap=300 snap=%d rot=%d fsync=always crash=0 torn=0 wall=%d" % (dim, snap, rot, now)]
     nb = 0
+    btimes = []
     damaged = set()
     for _ in range(n_ops):
         op = rng.choices(["insert", "delete", "update", "snapshot", "restart", "tick", "bk_full", "bk_incr", "bk_restore",
                           "bk_pitr", "bk_prune", "bk_damage"],
-                         [40, 8, 6, 9, 5, 10, 6, 10, 9, 3, 3, 0])[0]
+                         [40, 8, 6, 9, 5, 10, 6, 10, 9, 5, 3, 0])[0]
         i = rng.choice(ids)
         if op == "insert":
             ops.append("insert id=%d v=%s m=%s" % (i, persist.vbits(persist.rand_vec(rng, dim)), show_meta(persist.rand_meta(rng))))
@@ -35,17 +37,31 @@ def gen_history(rng, n_ops, damage):
         elif op == "update":
             ops.append("update id=%d m=%s merge=%d" % (i, show_meta(persist.rand_meta(rng)), rng.randrange(2)))
         elif op == "tick":
-            ops.append("tick secs=%d" % rng.choice([0, 1, 1, 2, 30, 3600, 5000, 86400, 100000, 700000]))
+            d = rng.choice([0, 1, 1, 2, 30, 3600, 5000, 86400, 100000, 700000])
+            ops.append("tick secs=%d" % d); now += d
         elif op == "bk_full":
-            ops.append("bk_full"); nb += 1
+            ops.append("bk_full"); nb += 1; btimes.append(now)
         elif op == "bk_incr":
             if nb:
-                ops.append("bk_incr parent=%d" % (nb - 1 if rng.random() < 0.7 else rng.randrange(nb))); nb += 1
+                par = nb - 1 if rng.random() < 0.7 else rng.randrange(nb)
+                if par != nb - 1 and rng.random() < 0.8:
+                    # a second child of an older backup: give it its own timestamp and its own content
+                    d = rng.choice([1, 2, 30])
+                    ops.append("tick secs=%d" % d); now += d
+                    ops.append("insert id=%d v=%s m=%s" % (i, persist.vbits(persist.rand_vec(rng, dim)), show_meta(persist.rand_meta(rng))))
+                ops.append("bk_incr parent=%d" % par); nb += 1; btimes.append(now)
+                if par != nb - 2 and rng.random() < 0.6:
+                    # sibling incrementals (two children of one parent): a point-in-time restore at or after the newer one
+                    d = rng.choice([0, 1, 5])
+                    if d:
+                        ops.append("tick secs=%d" % d); now += d
+                    ops.append("bk_pitr ts=%d clear=1 target=%s" % (now + rng.choice([0, 0, 3]), rng.choice(["empty", "dirty"])))
         elif op == "bk_restore":
             if nb:
                 ops.append("bk_restore b=%d clear=%d target=%s" % (rng.randrange(nb), rng.random() < 0.4, rng.choice(["empty", "empty", "dirty"])))
         elif op == "bk_pitr":
-            ops.append("bk_pitr ts=%d clear=1 target=%s" % (1700000000 + rng.randrange(3 * 10 ** 6), rng.choice(["empty", "dirty"])))
+            ts = rng.choice([now, now + 1] + [t + e for t in btimes[-3:] for e in (-1, 0, 1)]) if rng.random() < 0.7 else 1700000000 + rng.randrange(3 * 10 ** 6)
+            ops.append("bk_pitr ts=%d clear=1 target=%s" % (ts, rng.choice(["empty", "dirty"])))
         elif op == "bk_prune":
             ops.append("bk_prune hourly=%d daily=%d weekly=%d monthly=%d minage=%d" % (
                 rng.choice([0, 1, 24]), rng.choice([0, 1, 7]), rng.choice([0, 1, 4]), rng.choice([0, 1, 12]), rng.choice([0, 0, 1])))
